@@ -206,6 +206,17 @@ def run(ctx):
     # ---- C13.3 loop-carried parser state in the line reader
     line_reader_rules(ctx, facts, "C13.3")
 
+    # ---- C13.5 nothing is decided on how much of the stream happens to be buffered already: outside the line reader (whose reading style is
+    # judged on its own) the crate never inspects a read buffer (`BufReader::buffer`, `fill_buf`, `consume`, `capacity`)
+    import parser_rules as PRS_
+    lr_ = PRS_.pmodel(facts).line_reader()
+    lr_fns = {lr_.id} | {k for k in facts.local_fns if k.startswith(lr_.id + "::{closure")}
+    peeks = [(g, bb, t) for g, bb, t in facts.all_calls(lambda t: bool(re.search(r"^std::io::BufReader::<R>::(buffer|capacity)$", call_name(t))) or t.get("callee") in ("std::io::BufRead::fill_buf", "std::io::BufRead::consume", "std::io::BufRead::has_data_left"))
+             if g.id not in lr_fns and not g.id.startswith("test")]
+    for g, bb, t in peeks:
+        ctx.ob("C13.5", "buffer-inspected|%s" % g.id, "no code outside the line reader looks at what is already buffered", False, g.loc(bb), short(call_name(t)))
+    ctx.ob("C13.5", "no-buffer-inspection", "nothing outside the line reader inspects a read buffer's fill state", not peeks, "crate", nontrivial=True)
+
     # ---- C13.4 pauses between the client's writes change nothing: no read on a client socket can give up because time passed.  The sockets
     # are never given a timeout and never switched to non-blocking mode (a timed-out read surfaces as an I/O error that ends the request
     # or the connection, so how the bytes are spaced in time would decide what the application sees)
@@ -260,6 +271,20 @@ def line_reader_rules(ctx, facts, RULE):
     pushes = [bb for bb, t in f.calls() if call_matches(t, r"Vec::<T(, A)?>::push$")]
     ok = bool(pushes) and all(f.in_loop(b) for b in pushes)
     ctx.ob(RULE, "%s|every-byte-kept" % f.id, "every byte read is appended to the line buffer until the terminator", ok, "%s:%d" % (f.file, f.line))
+    # ... and nothing but the CR of the terminator is taken out again: one single-byte removal per line, not a loop that strips further bytes
+    # (whitespace at the end of a line is part of the line: ` CRLF` is a malformed header line, not the empty line that ends the head)
+    nexts = {bb for bb, t in f.calls() if t.get("callee") == "std::iter::Iterator::next" and re.search(r"^<std::io::Bytes<", call_name(t))}
+    removers = [(bb, t) for bb, t in f.calls() if call_matches(t, r"Vec::<T(, A)?>::(pop|truncate|retain|drain|remove|swap_remove|clear|split_off|dedup\w*)$|String::(pop|truncate|retain|drain|remove|clear)$|<impl str>::trim\w*$|<impl \[T\]>::trim_ascii\w*$")]
+    bad = []
+    for bb, t in removers:
+        nm = short(call_name(t))
+        if not re.search(r"::pop$", call_name(t)):
+            bad.append("%s on the line buffer" % nm)
+        elif bb in f.reach([f.normal_target(bb)], blocked=nexts, unwind=False):
+            bad.append("pop repeated without reading another byte (strips more than the CR)")
+    if len([1 for bb, t in removers if re.search(r"::pop$", call_name(t))]) > 1:
+        bad.append("more than one removal site")
+    ctx.ob(RULE, "%s|only-cr-removed" % f.id, "the line handed on is the line as received: only the CR of the terminating CRLF is removed from it", not bad, "%s:%d" % (f.file, f.line), None if not bad else str(bad[:3]))
     return {}
 
 
